@@ -11,6 +11,11 @@ import random
 import core
 
 NANV = 99
+PINF, NINF = 98, 97          # +inf exceeds every threshold, -inf none (markers of the specification)
+
+
+def fval(v, scale):
+    return float("nan") if v == NANV else float("inf") if v == PINF else float("-inf") if v == NINF else v / scale
 
 
 def call_split(m):
@@ -45,7 +50,7 @@ def call_seg(rows, thr, mode, scale=1):
     tr = tk.mk_track(list(range(n)))
     names = ["f%d" % j for j in range(k)]
     for j, nm in enumerate(names):
-        tr.createAnalyticalFeature(nm, [float("nan") if r[j] == NANV else r[j] / scale for r in rows])
+        tr.createAnalyticalFeature(nm, [fval(r[j], scale) for r in rows])
     e = {"ev": "seg", "rows": [list(r) for r in rows], "thr": list(thr), "mode": mode, "raised": False, "out": [], "pre": []}
     # history variant: the marker feature already exists (an earlier segmentation into the same name, or a column the user
     # created): the call must REPLACE its content - 1 exactly where the thresholds say so, 0 elsewhere
@@ -80,7 +85,7 @@ def job_split(args):
 
 def job_seg(args):
     k, = args
-    rows = list(itertools.product([0, 1, 2, NANV], repeat=k))
+    rows = list(itertools.product([0, 1, 2, NANV, PINF, NINF], repeat=k))
     out = []
     for thr in itertools.product([0, 1, 2], repeat=k):
         for mode in ("and", "or"):
@@ -97,7 +102,8 @@ def job_random(args):
         p = rnd.choice([0.0, 0.1, 0.3, 0.6, 1.0])
         out.append(call_split([1 if rnd.random() < p else 0 for _ in range(n)]))
         k = rnd.randrange(1, 4)
-        rows = [[NANV if rnd.random() < 0.2 else rnd.randrange(-8, 9) for _ in range(k)] for _ in range(rnd.randrange(1, 30))]
+        rows = [[NANV if rnd.random() < 0.2 else rnd.choice([PINF, NINF]) if rnd.random() < 0.1 else rnd.randrange(-8, 9) for _ in range(k)]
+                for _ in range(rnd.randrange(1, 30))]
         thr = [rnd.randrange(-8, 9) for _ in range(k)]
         out.append(call_seg(rows, thr, rnd.choice(["and", "or"]), scale=4))
     return out
@@ -105,7 +111,7 @@ def job_random(args):
 
 def mc_cfg(mode, nmax):
     inv = "SplitIsDefinition" if mode == "split" else "SegIsDefinition"
-    return ("SPECIFICATION Spec\nCONSTANTS\n  NMax = %d\n  KMax = 3\n  SVals = {0, 1, 2, 99}\n  SThr = {0, 1, 2}\n  Mode = \"%s\"\n"
+    return ("SPECIFICATION Spec\nCONSTANTS\n  NMax = %d\n  KMax = 3\n  SVals = {0, 1, 2, 97, 98, 99}\n  SThr = {0, 1, 2}\n  Mode = \"%s\"\n"
             "INVARIANT %s\nCHECK_DEADLOCK FALSE\n" % (nmax, mode, inv))
 
 
@@ -113,7 +119,7 @@ def run(ctx):
     quick = ctx.tier == "quick"
     nmax = 12 if quick else 16
     ctx.rule = ("TLC: split loop = definition and accepted for all 2^n markers, n <= %d; comparison loop within the marker "
-                "definition for all rows over {0,1,2,NaN}^k x thresholds {0,1,2}^k x modes, k <= 3. Binding: split() on every "
+                "definition for all rows over {0,1,2,-inf,+inf,NaN}^k x thresholds {0,1,2}^k x modes, k <= 3. Binding: split() on every "
                 "marker vector of length 1..%d and random ones to length 40; segmentation() on tracks enumerating every value "
                 "row for every threshold vector and mode + random rational-valued ones; judged by SplitTrace. Non-trivial = "
                 "distinct markers with a mark that is neither alone nor only at the last position, and distinct segmentation "
@@ -158,7 +164,7 @@ def run(ctx):
         if e["ev"] == "split":
             if sum(e["m"]) >= 1 and not (sum(e["m"]) == 1 and e["m"][-1] == 1) and len(e["m"]) > 1:
                 ctx.nontriv(repr(e["m"]))
-        elif any(v == NANV or v == t for r in e["rows"] for v, t in zip(r, e["thr"])):
+        elif any(v in (NANV, PINF, NINF) or v == t for r in e["rows"] for v, t in zip(r, e["thr"])):
             ctx.nontriv(repr((e["rows"], e["thr"], e["mode"])))
     ctx.evaluations += len(events)
     ctx.exhaustive = True
